@@ -38,7 +38,7 @@ CLAIMED = {
          "Per-credential keys that decode to the same id are not generated (the library's winner would depend on HashMap order)." + TRUST,
          SIM + "seeded ceremony histories, user-seam verification outcomes, HMAC recomputation from store-seam secrets", "DESIGN.md §6 C09"),
  "C11": ("exploration",
-         "The finite product capability x residentKey x requireResidentKey x credProps (72 cells) plus capability x rk (6 cells) is enumerated completely, each cell a simulated register-then-authenticate history with seeded nuisance parameters (incl. a second authenticator keeping the shared store's lock busy, hmac-secret with a prf input riding on the registration, a capability change between the authenticator's first getInfo and the registration); the oracle reads the rk option and the saved record at the store seam.",
+         "The finite product capability x residentKey x requireResidentKey x credProps (72 cells) plus capability x rk (6 cells) is enumerated completely, each cell a simulated register-then-authenticate history with seeded nuisance parameters (incl. user handles longer than 64 bytes, an older credential of the same RP with independently chosen discoverability named beside the new one in the assertions' allow lists, a second authenticator keeping the shared store's lock busy, hmac-secret with a prf input riding on the registration, a capability change between the authenticator's first getInfo and the registration); the oracle reads the rk option and the saved record at the store seam.",
          "The WebAuthn L3 residentKey mapping is restated independently in the oracle." + TRUST,
          SIM + "complete enumeration of the discoverability product, store-seam observation", "DESIGN.md §6 C11"),
  "C15": ("fault_enumeration",
